@@ -276,7 +276,11 @@ CheckObs(r) ==
 TrCheck ==
   /\ Ev("mcheck")
   /\ Step(CheckObs(Rec[l]))
-  /\ UNCHANGED <<kind, n, l2v, hs>>
+  \* reordering rebuilds nodes: remember the nodes the handle reaches now
+  /\ hs' = IF Rec[l].a \in Live
+           THEN [hs EXCEPT ![Rec[l].a].nodes = {Rec[l].g[i][1] : i \in 1 .. Len(Rec[l].g)}]
+           ELSE hs
+  /\ UNCHANGED <<kind, n, l2v>>
 
 TrCofNone ==
   /\ Ev("mcofnone")
